@@ -175,3 +175,125 @@ Section Fields.
     apply fl_lt_iff in E. destruct E as (_ & _ & E). lra.
   Qed.
 End Fields.
+
+(* ---- the libm field: a condition on the oracle table ----
+   [fie_sq_powf] says libm's powf(d, 2.0) is d * d for every integer d with d^2 < 2^24.  That is
+   a fact about the table (on the pinned toolchain it is even false for some d, DESIGN.md), so it
+   is a hypothesis: a table that answers those (at most 8191) queries with the exact square. *)
+Definition powf_sq_table (tab : list (Z * Z * Z)) : Prop :=
+  forall d, d * d < two24 ->
+    lookup3 tab FN_POWF (fl_of_int d * 4294967296 + f_two) = Some (fl_of_int (d * d)).
+
+(* a - b as computed by the model is the conversion of the integer a - b *)
+Lemma sub_is_of_int a b : 0 <= a < two24 -> 0 <= b < two24 -> (a - b) * (a - b) < two24 ->
+  fl_sub (fl_of_int a) (fl_of_int b) = fl_of_int (a - b).
+Proof.
+  intros Ha Hb Hq. destruct (sub_exact a b Ha Hb) as (Fd & Vd & Sd). cbv zeta in Fd, Vd, Sd.
+  unfold two24 in *.
+  destruct (fl_of_int_exact (a - b) ltac:(lia)) as (F & V & S).
+  apply bits_eq; try assumption; [apply canon_fl_sub|apply canon_fl_of_int|congruence|congruence].
+Qed.
+
+Lemma flocq_fie_sq_powf tab : powf_sq_table tab ->
+  forall a b, 0 <= a < two24 -> 0 <= b < two24 -> (a - b) * (a - b) < two24 ->
+  @libm2 (flocq_ops tab) FN_POWF (@fsub (flocq_ops tab) (@f_of_usize (flocq_ops tab) a) (@f_of_usize (flocq_ops tab) b)) f_two
+  = Ok (@f_of_usize (flocq_ops tab) ((a - b) * (a - b))).
+Proof.
+  intros T a b Ha Hb Hq. unfold libm2. cbn [flibm fsub f_of_usize flocq_ops].
+  rewrite (sub_is_of_int a b Ha Hb Hq), (T (a - b) Hq). reflexivity.
+Qed.
+
+Theorem flocq_FloatIntExact tab : powf_sq_table tab -> FloatIntExact (flocq_ops tab).
+Proof.
+  intros T. constructor.
+  - apply flocq_fie_zero.
+  - apply flocq_fie_add.
+  - apply flocq_fie_sq_powf. exact T.
+  - apply flocq_fie_sq_mul.
+  - apply flocq_fie_sqrt_zero.
+  - apply flocq_fie_sqrt_mono.
+  - apply flocq_fie_sqrt_int.
+  - apply flocq_fie_le_trans.
+  - apply flocq_fie_nonneg_guard.
+Qed.
+
+(* ---- the Release profile never asks libm: every table ----
+   [with_sq_powf FO] is FO with an oracle that answers powf(x, 2.0) by x * x.  It satisfies all of
+   [FloatIntExact]; the Release computation (x * x in place of powf) does not consult the oracle, so
+   it is the same computation under both interfaces; and the specification ([geo_nbrs], [within])
+   does not mention the oracle at all. *)
+Definition with_sq_powf (FO : FloatOps) : FloatOps := {|
+  fadd := @fadd FO; fsub := @fsub FO; fmul := @fmul FO; fdiv := @fdiv FO; frem := @frem FO;
+  fcmp := @fcmp FO; f_of_i32 := @f_of_i32 FO; f_to_i32 := @f_to_i32 FO;
+  f_of_usize := @f_of_usize FO; f_to_usize := @f_to_usize FO;
+  fsqrt := @fsqrt FO; fceil := @fceil FO; fround := @fround FO; fabs := @fabs FO; fneg := @fneg FO;
+  f_is_nan := @f_is_nan FO; f_is_finite := @f_is_finite FO; ffmt := @ffmt FO; fparse := @fparse FO;
+  flibm := fun fn key =>
+    if (fn =? FN_POWF) && (key mod 4294967296 =? f_two)
+    then Some (@fmul FO (key / 4294967296) (key / 4294967296))
+    else @flibm FO fn key;
+|}.
+
+Theorem flocq_FloatIntExact_sq tab : FloatIntExact (with_sq_powf (flocq_ops tab)).
+Proof.
+  constructor.
+  - exact (flocq_fie_zero tab).
+  - exact (flocq_fie_add tab).
+  - intros a b Ha Hb Hq. unfold libm2. cbn [flibm with_sq_powf].
+    set (x := @fsub (with_sq_powf (flocq_ops tab)) _ _).
+    assert (E1 : (x * 4294967296 + f_two) mod 4294967296 = f_two)
+      by (rewrite Z.add_comm, Z.mod_add by lia; reflexivity).
+    assert (E2 : (x * 4294967296 + f_two) / 4294967296 = x)
+      by (rewrite Z.div_add_l by lia; change (f_two / 4294967296) with 0; lia).
+    rewrite E1, E2, !Z.eqb_refl. cbn [andb]. unfold x.
+    f_equal. exact (flocq_fie_sq_mul tab a b Ha Hb Hq).
+  - exact (flocq_fie_sq_mul tab).
+  - exact (flocq_fie_sqrt_zero tab).
+  - exact (flocq_fie_sqrt_mono tab).
+  - exact (flocq_fie_sqrt_int tab).
+  - exact (flocq_fie_le_trans tab).
+  - exact (flocq_fie_nonneg_guard tab).
+Qed.
+
+Section ReleaseSame.
+  Variable FO : FloatOps.
+  Let FO' := with_sq_powf FO.
+
+  Lemma sqsum_release_same acc l1 l2 : @sqsum FO' Release acc l1 l2 = @sqsum FO Release acc l1 l2.
+  Proof.
+    revert acc l2. induction l1 as [|a r1 IH]; intros acc [|b r2]; try reflexivity.
+    cbn [sqsum sq_term rbind]. apply IH.
+  Qed.
+
+  Lemma euclid_release_same l1 l2 : @euclidean_distance FO' Release l1 l2 = @euclidean_distance FO Release l1 l2.
+  Proof. unfold euclidean_distance. rewrite sqsum_release_same. reflexivity. Qed.
+
+  Lemma nbr_scan_release_same e nd c r k : forall i,
+    @nbr_scan FO' Release e nd c r k i = @nbr_scan FO Release e nd c r k i.
+  Proof.
+    induction k as [|k IH]; intros i; [reflexivity|].
+    cbn [nbr_scan]. rewrite IH.
+    destruct (decompose_index i e nd) as [[di|]| |]; try reflexivity.
+    cbn [rbind]. rewrite euclid_release_same. reflexivity.
+  Qed.
+
+  Lemma find_neighbors_release_same ntotal ndim index r :
+    @find_neighbors FO' Release ntotal ndim index r = @find_neighbors FO Release ntotal ndim index r.
+  Proof.
+    unfold find_neighbors, find_neighbors_with.
+    change (@nbr_guard FO' ntotal ndim index r) with (@nbr_guard FO ntotal ndim index r).
+    destruct (nbr_guard ntotal ndim index r); [reflexivity|].
+    destruct (decompose_index index (edge_length ntotal ndim) ndim) as [[c|]| |]; try reflexivity.
+    cbn [rbind]. rewrite nbr_scan_release_same. reflexivity.
+  Qed.
+End ReleaseSame.
+
+Theorem flocq_nbr_is_geometric_set_release tab ntotal ndim index r :
+  1 <= ntotal <= 2147483648 -> 1 <= ndim -> 0 <= index < ntotal ->
+  @flt (flocq_ops tab) r f_zero = false -> sizes_ok ntotal ndim ->
+  @find_neighbors (flocq_ops tab) Release ntotal ndim index r
+  = Ok (Some (@geo_nbrs (flocq_ops tab) ntotal ndim index r)).
+Proof.
+  intros Hn Hd Hi Hr Hs. rewrite <- find_neighbors_release_same.
+  exact (@nbr_is_geometric_set_lemma _ (flocq_FloatIntExact_sq tab) Release ntotal ndim index r Hn Hd Hi Hr Hs).
+Qed.
